@@ -2,6 +2,7 @@ import TongoProofs.Lemmas.TlDecode
 import TongoProofs.Lemmas.Helpers08
 import TongoProofs.Lemmas.TlbRead
 import TongoProofs.Lemmas.TlbSnakeCost
+import TongoProofs.Lemmas.TlbDecTotal
 /-! Property C08 — TL-B and TL decoders are total on untrusted input: value or error, never a panic, no allocation or
 time out of proportion to the input. Property theorems only; lemmas live in `TongoProofs/Lemmas`.
 
@@ -208,5 +209,62 @@ example : ∀ r : Tlb.Rd, ((Tlb.readUint 32 r).bind fun _ => Outcome.ok ()).isPa
   intro r
   have := Tlb.readUint_np 32 (by decide) r
   cases h : Tlb.readUint 32 r <;> simp_all [Outcome.bind, Outcome.isPanic]
+
+/-! ## TL-B: the reflection-driven generic decoder (agent tlb's model `Tongo.Tlb.decode`, tied to tlb/decoder.go by C03)
+
+In that model no path constructs a panic; what the model does NOT share with Go is its fuel: where the model answers
+`.err "fuel"` for every fuel, the Go decoder recurses until the stack overflows. The theorems below are about THAT
+partiality: for a productive type environment (decidable check `prodb`: every named type only re-enters, before
+anything is consumed, named types of smaller rank) the decoder — on every descriptor, every cell tree, exotic cells,
+pruned branches and short cells included — answers with a value or a genuine error within an explicit fuel that is
+linear in the weight of the input, and an unproductive environment diverges. -/
+
+open Tongo.Tlb Tongo.Tlb.Total in
+/-- For every productive environment, EVERY descriptor `T` (in the environment or not) and EVERY slice: with
+`need` fuel or more the decoder does not panic, does not run out of fuel (the Go recursion terminates), and what is
+left to read weighs no more than before. -/
+theorem tlb_decode_total (l : List Tlb.Ty) (rks : List Nat) (hp : prodb l rks = true) (T : Tlb.Ty) (s : Slice) (fuel : Nat)
+    (hf : need (constsOf l rks) (rkOf rks) T s ≤ fuel) :
+    (decode (envOfList l) fuel T s).isPanic = false ∧ fuelOut (decode (envOfList l) fuel T s) = false ∧
+    ∀ v s', decode (envOfList l) fuel T s = .ok (v, s') → weight s' ≤ weight s :=
+  decode_total_of_prod l rks hp T s fuel hf
+
+open Tongo.Tlb Tongo.Tlb.Total in
+/-- The recursion depth (= the fuel that suffices) is linear in the number of cells of the unfolded tree when cells
+hold at most 1023 bits: `need ≤ 1024·C·cells + R·D + depth(T)` with `C = (R+2)·D+2`, `D` the deepest body of the
+environment, `R` the number of ranks. This is a bound on the DEPTH of the decoder's recursion (every re-entry of a named
+type has consumed a bit or a reference, descended into a referenced cell, or lowered the rank); a bound on its TOTAL
+work needs an instrumented decoder and is not proved — the fault-injection oracles measure time against a deadline
+proportional to the unfolded tree instead. -/
+theorem tlb_decode_steps (l : List Tlb.Ty) (rks : List Nat) (T : Tlb.Ty) (c : Cell) (hb : boundedBits c = true) :
+    need (constsOf l rks) (rkOf rks) T (Slice.ofCell c) ≤
+      1024 * cells c * (constsOf l rks).C + (constsOf l rks).R * (constsOf l rks).D + tdepth T := by
+  have h1 := cellWeight_le_cells c hb
+  have h2 : rkOf rks 0 ≤ listMax rks := rkOf_le rks 0
+  have h3 : rk0 (rkOf rks) T ≤ (constsOf l rks).R := by
+    refine Nat.le_trans (rk0_le (rkOf rks) (listMax rks) (rkOf_le rks) T) ?_
+    simp only [constsOf]; omega
+  have h4 := Nat.mul_le_mul_right (constsOf l rks).D h3
+  have h5 := Nat.mul_le_mul_right (constsOf l rks).C (show cellWeight c ≤ 1024 * cells c by omega)
+  simp only [need, weight_ofCell]
+  omega
+
+open Tongo.Tlb Tongo.Tlb.Total in
+/-- An unproductive type — `type T struct { X *T }`, the shape of the exported helper tlb.HashMapAugExtraList[T] — is
+out of fuel for EVERY fuel on every (non-library) cell: the known fatal stack overflow of the Go decoder, as a
+theorem; and the productivity check rejects it for every choice of ranks. -/
+theorem tlb_decode_unproductive_diverges (s : Slice) (hl : s.isLibrary = false) (fuel : Nat) (rks : List Nat) :
+    fuelOut (decode (envOfList [selfPtr]) fuel (.named 0) s) = true ∧ prodb [selfPtr] rks = false :=
+  ⟨(selfPtr_diverges s hl fuel).1, selfPtr_unproductive rks⟩
+
+open Tongo.Tlb Tongo.Tlb.Total in
+/-- Every hand-written decoder agent tlb models as a `Prim` (Unary, Any, VarUInteger, big integers, Grams,
+SignedCoins, SnakeData, Bytes, Text, FixedLengthText, Anycast, MsgAddress, AccountStatus, AccStatusChange,
+ComputeSkipReason, VmCellSlice, wallet.PayloadV1toV4, wallet.W5Actions): value or genuine error on every slice, their
+internal loops have enough fuel, and they only consume. -/
+theorem tlb_prim_decoders_total (p : Prim) (s : Slice) :
+    (Prim.dec p s).isPanic = false ∧ fuelOut (Prim.dec p s) = false ∧
+    ∀ v s', Prim.dec p s = .ok (v, s') → weight s' ≤ weight s :=
+  good_primDec p s (Nat.le_refl _)
 
 end Tongo.C08
